@@ -10,7 +10,7 @@ Case (plain JSON)::
      "globals": enc dict                             extra environment globals (containers)
      "tglobals": {name: enc dict}                    template-level globals passed to get_template(name, globals=...)
      "history": [[name, entry, data index], ...]     every rendered template occurs >= 3 times
-     "async": bool
+     "async": bool, "autoescape": false | true | "fn" (decided by template name, select_autoescape style)
      "threads": None | {"n": 8..16, "reps": int, "preload": bool}}
 
 Encoding of data: JSON scalars / lists as themselves, {"$": "dict"|"set"|"tuple"|"deque", "v": [...]},
@@ -28,7 +28,10 @@ Oracle, per case:
    root_render_func, Template.module (sync) and the *_async variants in enable_async environments.  After every
    step: result == the isolated reference, and the deep snapshots (type + structure + repr of leaves) of both
    data dicts, the extra globals, ``env.globals``, and every loaded template's own globals layer equal the
-   snapshots taken before the first step.
+   snapshots taken before the first step; ``env.policies`` and ``jinja2.defaults.DEFAULT_POLICIES`` (whose nested
+   dicts all environments share) equal a deep copy taken when this module was imported - this is also checked
+   after every isolated reference render, so a reference cannot be computed under policies an earlier render
+   changed (on a difference the shared dicts are restored before the violation is raised).
 3. *threads* (cases with "threads"): a second fresh environment (with preload=false nothing is loaded, so loading,
    compiling and module caching race as well), 8-16 threads started behind a barrier under ``sys.setswitchinterval(1e-6)``,
    each executing the distinct steps ``reps`` times in a rotated order on the same shared data objects;
@@ -42,6 +45,7 @@ from __future__ import annotations
 
 import asyncio
 import collections
+import copy
 import re
 import sys
 import threading
@@ -63,7 +67,8 @@ RULE = (
     "importing/including them; (tset) G-inherit / G-modules sets. Data: lists, nested lists, dicts, sets, tuples, "
     "deques, attribute objects holding containers, container-valued environment and template-level globals; two data "
     "assignments. History: every template >= 3 times in a generated interleaving over 8 sync / 7 async entry points and "
-    "both data assignments; a quarter of the cases add 8-16 threads x 2-3 repetitions of up to 6 distinct steps. Non-trivial = some template of "
+    "both data assignments; autoescape off / on / decided by template name; tojson with and without indent, truncate "
+    "and urlize (policy-reading filters); a quarter of the cases add 8-16 threads x 2-3 repetitions of up to 6 distinct steps. Non-trivial = some template of "
     "the case has an import or include-without-context (module cache), a namespace, or a filter with a container "
     "argument, and is rendered >= 3 times; distinct = distinct serialised case."
 )
@@ -246,10 +251,51 @@ def _allowed():
     return _ALLOWED
 
 
+def _autoescape_by_name(name):
+    """select_autoescape-style decision by template name: u0 / w0 / lib0 / p0 / t0 / t2 escape, the others do not."""
+    return name is not None and name[-1:] in "02"
+
+
+# The policies every new Environment starts from, as they were when this module was imported (before any render of
+# this process).  Environment.__init__ copies DEFAULT_POLICIES shallowly, so the nested "json.dumps_kwargs" dict is one
+# object shared by all environments: a render that writes into it changes an input of every later render.
+def _load_pristine():
+    from jinja2.defaults import DEFAULT_POLICIES
+
+    return copy.deepcopy(DEFAULT_POLICIES)
+
+
+_PRISTINE = _load_pristine()
+
+
+def check_policies(env, when, case, sources):
+    from jinja2.defaults import DEFAULT_POLICIES
+
+    want = snap(_PRISTINE)
+    for label, pol in (("env.policies", env.policies), ("jinja2.defaults.DEFAULT_POLICIES", DEFAULT_POLICIES)):
+        got = snap(pol)
+        if got != want:
+            msg = snap_diff(want, got, label)
+            # put the shared dicts back (in place) so that the failure does not leak into the cases that follow
+            for k, v in _PRISTINE.items():
+                if isinstance(v, dict) and isinstance(DEFAULT_POLICIES.get(k), dict):
+                    DEFAULT_POLICIES[k].clear()
+                    DEFAULT_POLICIES[k].update(copy.deepcopy(v))
+                else:
+                    DEFAULT_POLICIES[k] = copy.deepcopy(v)
+            for k in [k for k in DEFAULT_POLICIES if k not in _PRISTINE]:
+                del DEFAULT_POLICIES[k]
+            raise core.Violation("%s: %s (the policies are an input shared by every environment)\n  %s"
+                                 % (when, msg, _describe(case, sources)))
+
+
 def make_env(case, sources, context_class=None):
     import jinja2
 
-    env = jinja2.Environment(loader=jinja2.DictLoader(dict(sources)), enable_async=bool(case.get("async")),
+    ae = case.get("autoescape") or False
+    if ae == "fn":
+        ae = _autoescape_by_name
+    env = jinja2.Environment(loader=jinja2.DictLoader(dict(sources)), enable_async=bool(case.get("async")), autoescape=ae,
                              extensions=["jinja2.ext.do", "jinja2.ext.loopcontrols"])
     if context_class is not None:
         env.context_class = context_class(env)
@@ -415,8 +461,8 @@ def _steps_of(case):
 
 
 def _describe(case, sources):
-    return "async=%r\n  %s\n  data=%r\n  globals=%r tglobals=%r" % (
-        bool(case.get("async")), "\n  ".join("%s: %s" % kv for kv in sorted(sources.items())), case["data"],
+    return "async=%r autoescape=%r\n  %s\n  data=%r\n  globals=%r tglobals=%r" % (
+        bool(case.get("async")), case.get("autoescape") or False, "\n  ".join("%s: %s" % kv for kv in sorted(sources.items())), case["data"],
         case.get("globals"), case.get("tglobals"))
 
 
@@ -451,12 +497,15 @@ def check_case(case):
     steps = _steps_of(case)
     loop = asyncio.new_event_loop()
     labels = ["kind_" + case["kind"], "async" if case.get("async") else "sync"]
+    if case.get("autoescape"):
+        labels.append("autoescape_fn" if case["autoescape"] == "fn" else "autoescape")
     try:
         # 1. isolated references
         expected = {}
         for name, entry, di in steps:
             w = World(case, sources)
             expected[(name, entry, di)] = run_entry(w, name, entry, di, loop)
+            check_policies(w.env, "after the isolated render %s(%r, data%d)" % (entry, name, di + 1), case, sources)
             w = None
         # 2. history on one shared environment
         world = World(case, sources)
@@ -476,7 +525,9 @@ def check_case(case):
                     "step %d of the history, %s(%r, data%d): isolated first render gave %r, this render gives %r\n  history=%r\n  %s"
                     % (i, entry, name, di + 1, exp, got, case["history"][: i + 1], _describe(case, sources)),
                     expected=exp, observed=got)
-            _compare_snaps(world, base, tbase, "after step %d of the history (%s(%r, data%d))" % (i, entry, name, di + 1), case, sources)
+            when = "after step %d of the history (%s(%r, data%d))" % (i, entry, name, di + 1)
+            _compare_snaps(world, base, tbase, when, case, sources)
+            check_policies(world.env, when, case, sources)
         labels.append("out_" + ("err" if all(expected[s][0] == "err" for s in steps) else "text"))
         for s in steps:
             if expected[s][0] == "err":
@@ -577,6 +628,7 @@ def _thread_part(case, sources, steps, expected, th):
     for k, v in base.items():
         if now.get(k) != v:
             raise core.Violation("after %d concurrent threads: %s\n  %s" % (n, snap_diff(v, now.get(k), k), _describe(case, sources)))
+    check_policies(world.env, "after %d concurrent threads" % n, case, sources)
 
 
 # ---------------------------------------------------------------------------------------
@@ -654,6 +706,10 @@ TYPED = [
     ("", "{{ %(seq)s|max }}{{ %(seq)s|min }}{{ DL|max(attribute='v') }}{{ %(seq)s|select('odd')|list }}{{ %(seq)s|reject('odd')|list }}"),
     ("", "{{ DL|selectattr('v', 'gt', 1)|list|length }}{{ DL|rejectattr('v')|list|length }}{{ OL|selectattr('k', 'eq', 'x')|list }}"),
     ("", "{{ %(list)s|tojson }}{{ %(dict)s|tojson }}{{ %(any)s|pprint }}{{ %(dict)s|xmlattr }}{{ %(dict)s|urlencode }}{{ %(any)s|string }}"),
+    ("container_arg", "{{ %(any)s|tojson(indent=2) }}{{ %(list)s|tojson }}"),
+    ("container_arg", "{{ %(list)s|tojson }}{{ %(dict)s|tojson(2) }}{{ [%(list)s, I]|tojson }}"),
+    ("", "{{ 'aaa bbb ccc ddd'|truncate(9) }}{{ 'aaa bbb ccc ddd'|truncate(9, true, '..', 0) }}{{ W|truncate(3, leeway=1) }}"),
+    ("container_arg", "{{ 'http://x.y a@b.c x:z'|urlize(rel='nofollow', target='_blank', extra_schemes=S) }}{{ 'http://x.y x:z'|urlize }}"),
     ("container_arg", "{{ I in %(list)s }}{{ %(list)s is sameas %(list)s }}{{ %(list)s == %(list)s }}{{ %(list)s is eq(%(list)s) }}"),
     ("container_arg", "{{ %(list)s is iterable }}{{ %(any)s is sequence }}{{ %(any)s is mapping }}{{ %(list)s is in([%(list)s]) }}"),
     ("container_arg", "{{ %(list)s + %(list)s }}"),
@@ -729,7 +785,7 @@ ALL_FILTERS = ("abs", "attr", "batch", "capitalize", "center", "count", "d", "de
 LAZY_FILTERS = ("map", "select", "reject", "selectattr", "rejectattr", "batch", "slice", "reverse", "unique", "items")
 WILD_ARGS = ("I", "W", "2", "'k'", "true", "L", "L2", "START", "FILL", "DFLT", "D", "DDFLT", "GL", "T", "Q", "LL", "S", "O", "N",
              "attribute='k'", "attribute='w'", "start=START", "default=DFLT", "fill_with=FILL", "reverse=true", "first=true",
-             "blank=true", "width=L", "by='value'")
+             "blank=true", "width=L", "by='value'", "indent=2", "indent=I")
 
 
 def _strategy(sizes):
@@ -824,7 +880,8 @@ def _strategy(sizes):
     def cases(draw):
         kind = draw(st.sampled_from(["frag", "frag", "frag", "stmt", "tset"]))
         is_async = draw(st.integers(0, 2)) == 0
-        case = {"kind": kind, "async": is_async, "globals": draw(glob_s), "tglobals": {}}
+        case = {"kind": kind, "async": is_async, "autoescape": draw(st.sampled_from([False, False, True, "fn", True])),
+                "globals": draw(glob_s), "tglobals": {}}
         d1, d2 = draw(data_s), draw(data_s)
         if kind == "frag":
             nlibs = draw(st.integers(0, 2))
@@ -892,7 +949,7 @@ def shards(tier):
 def run_shard(spec, ctx):
     import hypothesis.errors
 
-    n = ctx.pick(280, 3200)  # measured ~0.12 s CPU per case (quick sizes), ~0.17 s (thorough sizes)
+    n = ctx.pick(240, 2800)  # measured ~0.12 s CPU per case (quick sizes), ~0.17 s (thorough sizes)
     strat = _strategy(ctx.pick((7, 3, 14, 3), (10, 4, 30, 4)))
     rec = core.Rec()
     for k in THREAD_STATS:
@@ -916,7 +973,7 @@ def run_shard(spec, ctx):
 
 
 FLOORS = {
-    "kind_frag": 0.3, "kind_stmt": 0.08, "kind_tset": 0.08, "async": 0.15, "threads": 0.15, "tag_import": 0.3,
+    "autoescape": 0.15, "autoescape_fn": 0.05, "kind_frag": 0.3, "kind_stmt": 0.08, "kind_tset": 0.08, "async": 0.15, "threads": 0.15, "tag_import": 0.3,
     "tag_namespace": 0.15, "tag_container_arg": 0.3, "tag_wild": 0.15, "entry_make_module": 0.1, "entry_new_context_shared": 0.1,
     "entry_default_module": 0.1, "entry_generate_async": 0.03, "out_text": 0.5,
 }
